@@ -187,13 +187,14 @@ def epochToInst (t : Nat) : Inst :=
     m := tzobRm.getD mon 0, d := dom % 256,
     S := s % 60, M := s / 60 % 60, H := (s / 3600) % 256, ms := allSec }
 
-/-- echsd.c `instant_to_tstamp` (seconds since the unix epoch); `nd` is `unsigned int`. -/
-def instToTstamp (i : Inst) : Nat :=
-  let w := 2^32
-  let yy := (i.y + w - 2001) % w
-  let nd := (365 * yy + yy / 4) % w
-  let nd := (nd + echsdMonYday.getD i.m 0 + i.d + (if i.y % 4 = 0 ∧ i.m ≥ 3 then 1 else 0)) % w
-  let t := if i.isAllDay then nd * 86400 else ((nd * 24 + i.H) * 60 + i.M) * 60 + i.S
-  t + echsdEpochDays * 86400
+/-- echsd.c `instant_to_tstamp` (seconds since the unix epoch, negative before 1970): days since 2001-01-01 with the
+Gregorian leap rule in both directions (`FDIV` is floor division, as `/` on `Int` with a positive divisor). -/
+def instToTstamp (i : Inst) : Int :=
+  let y : Int := (i.y : Int) - 2001
+  let leap : Bool := i.y % 4 == 0 && (i.y % 100 != 0 || i.y % 400 == 0)
+  let nd : Int := 365 * y + y / 4 - y / 100 + y / 400 +
+    (echsdMonYday.getD i.m 0 : Nat) + (i.d : Nat) + (if leap && decide (i.m ≥ 3) then 1 else 0)
+  let t : Int := if i.isAllDay then nd * 86400 else ((nd * 24 + (i.H : Nat)) * 60 + (i.M : Nat)) * 60 + (i.S : Nat)
+  t + (echsdEpochDays : Nat) * 86400
 
 end Echse.Instant
